@@ -7172,7 +7172,8 @@ moveto_attr(struct lyxp_set *set, const struct lys_module *mod, const char *ncna
                         /* pos does not change */
                         replaced = 1;
                     } else {
-                        set_insert_node(set, (struct lyd_node *)sub, set->val.nodes[i].pos, LYXP_NODE_META, i + 1);
+                        /* right after the previous metadata of the node, with the same position */
+                        set_insert_node(set, (struct lyd_node *)sub, set->val.meta[i - 1].pos, LYXP_NODE_META, i);
                     }
                     ++i;
                 }
@@ -7306,7 +7307,8 @@ moveto_attr_alldesc(struct lyxp_set *set, const struct lys_module *mod, const ch
                         /* pos does not change */
                         replaced = 1;
                     } else {
-                        set_insert_node(set, (struct lyd_node *)sub, set->val.meta[i].pos, LYXP_NODE_META, i + 1);
+                        /* right after the previous metadata of the node, with the same position */
+                        set_insert_node(set, (struct lyd_node *)sub, set->val.meta[i - 1].pos, LYXP_NODE_META, i);
                     }
                     ++i;
                 }
